@@ -325,6 +325,17 @@ func (s *schedRun) doOp(w writer, i, step int, o [2]any) string {
 		} else {
 			err = errors.New("Truncate outside a transaction")
 		}
+	case "Iter": // the transaction reads its own state through an iterator (and, every other time, a snapshot)
+		if t, ok := w.(*fox.Txn); ok {
+			if step%2 == 0 {
+				for range t.Iter().All() {
+				}
+			} else if sn := t.Snapshot(); sn != nil {
+				_ = sn.Len()
+			}
+		} else {
+			err = errors.New("Iter outside a transaction")
+		}
 	}
 	return errClass(err)
 }
